@@ -144,8 +144,11 @@ fn run2_with<F: Function + RenderHints + MathFunction + Clone>(cx: &mut Cx, back
     let tiles: &[usize] = deep.unwrap_or([&[16usize, 4][..], &[8, 2], &[32, 8]][k % 3]);
     let perfect = k % 2 == 0;
     let ntasks = (w as usize).div_ceil(tiles[0]) * (h as usize).div_ceil(tiles[0]);
+    // shapes that depend on z are cut at a slice height that changes from case to case (the pools, the global one in
+    // particular, live on: whatever a thread keeps from one render is still there in the next)
+    let z = if b.desc.starts_with("boxes") { [-0.3f32, 0.2, 0.45, -0.6][k % 4] } else { 0.0 };
     let render = |threads: i64, token: CancelToken| -> Option<[i64; 2]> {
-        let cfg = pixel::RenderConfig { image_size: ImageSize::new(w, h), world_to_model: Matrix3::identity(), pixel_perfect: perfect, z: 0.0 };
+        let cfg = pixel::RenderConfig { image_size: ImageSize::new(w, h), world_to_model: Matrix3::identity(), pixel_perfect: perfect, z };
         let tp = match threads { 0 => None, -1 => Some(ThreadPool::Global), n => Some(pool(n as usize)) };
         let ecfg = pixel::EvalConfig { tile_sizes: Some(TileSizes::new(tiles).unwrap()), threads: tp.as_ref(), cancel: token };
         pixel::render(shape.bind(&vars).unwrap(), &cfg, &ecfg).map(|i| digest2(&i))
@@ -309,13 +312,14 @@ fn main() {
             ("box and sphere", Box::new(|c| { let a = box3(c, [-0.5, -0.5, -0.5], [0.5, 0.5, 0.0]); let b = sphere(c, [0.0, 0.0, 0.2], 0.45); c.min(a, b).unwrap() })),
             ("box one step above 0.5", Box::new(|c| box3(c, [-0.50000006, -0.50000006, -0.50000006], [0.50000006, 0.50000006, 0.50000006]))),
         ];
-        let pools: &[i64] = if quick { &[3, 8, 16] } else { &[-1, 1, 2, 3, 4, 5, 8, 12, 16] };
+        let pools: &[i64] = if quick { &[2, 3, 5, 8, 16] } else { &[-1, 1, 2, 3, 4, 5, 8, 12, 16] };
         for (k, (name, build)) in solids.iter().enumerate() {
             let mut ctx = fidget_core::Context::new();
             let root = build(&mut ctx);
             let b = Built { ctx, root, desc: format!("directed {name}") };
-            for depth in [3u8, 4] {
-                if quick && (k + depth as usize) % 2 == 1 && k > 2 { continue; }
+            // (at depth 2 a pool of 2 .. 5 threads puts the task frontier across the maximum depth: some tasks are single leaves)
+            for depth in [2u8, 3, 4] {
+                if quick && depth > 2 && (k + depth as usize) % 2 == 1 && k > 2 { continue; }
                 if k % 2 == 0 { run_mesh_with::<VmFunction>(&mut cx, "vm", &b, quick, k, &mut rng, Some((depth, pools))); }
                 else { run_mesh_with::<JitFunction>(&mut cx, "jit", &b, quick, k, &mut rng, Some((depth, pools))); }
             }
@@ -345,6 +349,8 @@ fn main() {
         let b3 = Built { ctx, root: acc.unwrap(), desc: "boxes".into() };
         let deep3: &[usize] = [&[16usize, 8, 4][..], &[8, 4, 2], &[16, 4, 2]][k % 3];
         if k % 2 == 1 { run3_with::<VmFunction>(&mut cx, "vm", &b3, quick, k, &mut rng, Some(deep3)); } else { run3_with::<JitFunction>(&mut cx, "jit", &b3, quick, k, &mut rng, Some(deep3)); }
+        // the same solid as a 2D slice, at a height that differs from the previous case's
+        if k % 2 == 0 { run2_with::<VmFunction>(&mut cx, "vm", &b3, quick, k, &mut rng, Some(deep2)); } else { run2_with::<JitFunction>(&mut cx, "jit", &b3, quick, k, &mut rng, Some(deep2)); }
     }
     for k in 0..(if quick { 4 } else { 30 }) {
         shared_tape(&mut cx, &mut rng, [16, 8, 3, 12][k % 4]);
